@@ -26,6 +26,21 @@ def eval_call(ex, node, st, sink):
             kws = dict(zip(kw.keys(), vals[len(node.args):]))
             out += ex.call_contract(c, pos, kws, s, sink, node)
         return out
+    cname = dotted.split(".")[-1] if dotted else None
+    if cname and cname in ex.reg.records and not (isinstance(f, ast.Name) and f.id in st.vars) and ex.reg.find_method(cname, "__init__") is not None:
+        # constructor: allocate a fresh object of that class, then run/assume __init__
+        c = ex.reg.find_method(cname, "__init__")
+        out = []
+        for s, vals in ex.ev_list(list(node.args) + list(kw.values()), st, sink):
+            ref = ty.fresh(ty.RefT(cname), "new_" + cname)
+            s.assume(ty.typeof(ref.e) == ex.reg.records[cname].cid)
+            # allocation: born(new object) is a fresh positive stamp; everything that existed at entry has born <= 0
+            s.assume(ty.born(ref.e) == ex._fresh() + 1)
+            pos = [ref] + vals[:len(node.args)]
+            kws = dict(zip(kw.keys(), vals[len(node.args):]))
+            for s2, _ in ex.call_contract(c, pos, kws, s, sink, node):
+                out.append((s2, ref))
+        return out
     if isinstance(f, ast.Name):
         name = f.id
         if name in st.vars and hasattr(st.vars[name], "node"):
@@ -183,7 +198,21 @@ def method_call(ex, f, recv, node, kw, st, sink):
     if isinstance(t, ty.RefT):
         c = ex.reg.find_method(t.cls, name)
         if c is None:
-            raise Unsupported("no contract for %s.%s (line %d)" % (t.cls, name, node.lineno))
+            # dynamic dispatch: case split over the concrete subclasses that define the method
+            subs = [sc for sc in ex.reg.subclasses(t.cls) if not ex.reg.records[sc].abstract and ex.reg.find_method(sc, name) is not None]
+            concrete = [sc for sc in ex.reg.subclasses(t.cls) if not ex.reg.records[sc].abstract]
+            if not subs or set(subs) != set(concrete):
+                raise Unsupported("no contract for %s.%s (line %d)" % (t.cls, name, node.lineno))
+            out = []
+            for sc in subs:
+                cond = ty.typeof(recv.e) == ex.reg.records[sc].cid
+                if not ex.feasible(st, cond):
+                    continue
+                s2 = st.copy()
+                s2.assume(cond)
+                s2.trace.append("L%d:dispatch %s" % (node.lineno, sc))
+                out += method_call(ex, f, SV(ty.RefT(sc), recv.e), node, kw, s2, sink)
+            return out
         out = []
         for s, vals in ex.ev_list(list(node.args) + list(kw.values()), st, sink):
             pos = [recv] + vals[:len(node.args)]
